@@ -113,15 +113,20 @@ std::string hex(std::string const &s)
 // ------------------------------------------------------------------ binary values
 struct BinVal
 {
-  unsigned type; // 0..9
-  unsigned char bytes[8]; // object representation (host order)
+  unsigned type; // 0..10
+  unsigned char bytes[16]; // object representation (host order)
   std::endian order;
 };
+constexpr unsigned TYPES = 11;
 constexpr std::size_t type_size(unsigned t)
 {
-  constexpr std::size_t s[10] = {1, 1, 2, 2, 4, 4, 8, 8, 4, 8};
-  return s[t % 10];
+  constexpr std::size_t s[TYPES] = {1, 1, 2, 2, 4, 4, 8, 8, 4, 8, sizeof(long double)};
+  return s[t % TYPES];
 }
+// bytes of the object representation that carry the value (x87 long double: 10 of 16; the rest is
+// padding whose contents nobody promises)
+constexpr std::size_t value_bytes(unsigned t) { return t % TYPES == 10 ? 10 : type_size(t); }
+static_assert(sizeof(long double) == 16, "harness assumes the x86-64 long double (80 bits in 16 bytes)");
 
 template <typename T>
 void write_as(std::ostream &o, BinVal const &v)
@@ -132,8 +137,9 @@ void write_as(std::ostream &o, BinVal const &v)
 }
 void write_val(std::ostream &o, BinVal const &v)
 {
-  switch (v.type % 10)
+  switch (v.type % TYPES)
   {
+  case 10: write_as<long double>(o, v); break;
   case 0: write_as<signed char>(o, v); break;
   case 1: write_as<unsigned char>(o, v); break;
   case 2: write_as<short>(o, v); break;
@@ -158,8 +164,9 @@ bool read_as(std::istream &i, std::endian order, unsigned char *out)
 }
 bool read_val(std::istream &i, unsigned type, std::endian order, unsigned char *out)
 {
-  switch (type % 10)
+  switch (type % TYPES)
   {
+  case 10: return read_as<long double>(i, order, out);
   case 0: return read_as<signed char>(i, order, out);
   case 1: return read_as<unsigned char>(i, order, out);
   case 2: return read_as<short>(i, order, out);
@@ -176,7 +183,31 @@ bool read_val(std::istream &i, unsigned type, std::endian order, unsigned char *
 BinVal gen_val(sim::Rng &r, unsigned endian_mode)
 {
   BinVal v{};
-  v.type = static_cast<unsigned>(r.below(10));
+  v.type = static_cast<unsigned>(r.below(TYPES));
+  if (v.type == 10)
+  {
+    // long double: only proper values (arbitrary bit patterns are not valid x87 operands)
+    long double x = 0.0L;
+    switch (r.below(8))
+    {
+    case 0: x = 0.0L; break;
+    case 1: x = -0.0L; break;
+    case 2: x = std::numeric_limits<long double>::max(); break;
+    case 3: x = std::numeric_limits<long double>::denorm_min(); break;
+    case 4: x = -std::numeric_limits<long double>::infinity(); break;
+    case 5: x = 1.0L; break;
+    default:
+      x = static_cast<long double>(static_cast<long long>(r.next())) / 7.0L;
+      for (unsigned k = static_cast<unsigned>(r.below(40)); k != 0; --k)
+        x *= r.chance(1, 2) ? 1024.0L : 1.0L / 1024.0L;
+      break;
+    }
+    std::memset(v.bytes, 0, sizeof v.bytes);
+    std::memcpy(v.bytes, &x, value_bytes(10));
+    unsigned const e = endian_mode % 3 == 2 ? static_cast<unsigned>(r.below(2)) : endian_mode % 3;
+    v.order = e == 0 ? std::endian::little : std::endian::big;
+    return v;
+  }
   std::size_t const n = type_size(v.type);
   std::uint64_t bits = 0;
   switch (r.below(6))
@@ -262,12 +293,15 @@ struct World
       for (std::size_t k = 0; k < acked; ++k)
       {
         std::size_t const sz = type_size(vals[k].type);
-        std::string want(reinterpret_cast<char const *>(vals[k].bytes), sz); // host = little endian
+        std::size_t const vb = value_bytes(vals[k].type);
+        std::string want(reinterpret_cast<char const *>(vals[k].bytes), vb); // host = little endian
         static_assert(std::endian::native == std::endian::little, "harness assumes a little endian host");
         if (vals[k].order == std::endian::big)
           std::reverse(want.begin(), want.end());
-        SIM_CHECK(file.compare(off, sz, want) == 0, "byte-layout",
-                  "value " + std::to_string(k) + " (type " + std::to_string(vals[k].type) + ", " + (vals[k].order == std::endian::big ? "big" : "little") + " endian) is on disk as " + hex(file.substr(off, sz)) + ", expected " + hex(want));
+        // (padding bytes of long double precede the value in big endian and follow it in little)
+        std::size_t const voff = vals[k].order == std::endian::big ? off + (sz - vb) : off;
+        SIM_CHECK(file.compare(voff, vb, want) == 0, "byte-layout",
+                  "value " + std::to_string(k) + " (type " + std::to_string(vals[k].type) + ", " + (vals[k].order == std::endian::big ? "big" : "little") + " endian) is on disk as " + hex(file.substr(voff, vb)) + ", expected " + hex(want));
         off += sz;
       }
       SIM_CHECK(acked_bytes <= file.size(), "acknowledged-but-not-on-disk", "bin");
@@ -284,7 +318,7 @@ struct World
     unsigned good_reads = 0;
     for (std::size_t k = 0; k < vals.size(); ++k)
     {
-      unsigned char out[8] = {};
+      unsigned char out[16] = {};
       bool ok = false;
       {
         sim::fault::Sut s;
@@ -297,7 +331,7 @@ struct World
         SIM_CHECK(!failed_once, "read-after-failure", "value " + std::to_string(k) + " was read although an earlier read had failed (shifted bytes)");
         SIM_CHECK(!rb.threw(), "value-after-read-error", "io::read returned a value although the stream failed");
         SIM_CHECK(whole, "torn-value-accepted", "value " + std::to_string(k) + " lies only partly in the file (" + std::to_string(visible) + " bytes visible, value at " + std::to_string(off) + "+" + std::to_string(sz) + ") but io::read returned a value");
-        SIM_CHECK(std::memcmp(out, vals[k].bytes, sz) == 0, "roundtrip", "value " + std::to_string(k) + " type " + std::to_string(vals[k].type) + " read back differently");
+        SIM_CHECK(std::memcmp(out, vals[k].bytes, value_bytes(vals[k].type)) == 0, "roundtrip", "value " + std::to_string(k) + " type " + std::to_string(vals[k].type) + " read back differently");
         ++good_reads;
       }
       else
@@ -501,7 +535,7 @@ struct World
       unsigned long c = 0;
       switch (r.below(5))
       {
-      case 0: c = 1 + r.below(0x7F); break;
+      case 0: c = r.chance(1, 12) ? 0 : 1 + r.below(0x7F); break; // now and then U+0000: a valid character too
       case 1: c = 0x80 + r.below(0x780); break;
       case 2: c = 0x800 + r.below(0xF800); break;
       case 3: c = 0x10000 + r.below(0x100000); break;
@@ -791,7 +825,7 @@ struct World
     {
       BinVal const v = gen_val(r, 0);
       std::uint64_t bits = 0;
-      std::memcpy(&bits, v.bytes, type_size(v.type));
+      std::memcpy(&bits, v.bytes, std::min<std::size_t>(sizeof bits, type_size(v.type)));
       sim::fault::Sut s;
       switch (type_size(v.type))
       {
